@@ -31,6 +31,7 @@ import (
 	"github.com/prometheus/alertmanager/api"
 	"github.com/prometheus/alertmanager/dispatch"
 	"github.com/prometheus/alertmanager/eventrecorder"
+	"github.com/prometheus/alertmanager/featurecontrol"
 	"github.com/prometheus/alertmanager/limit"
 	"github.com/prometheus/alertmanager/provider/mem"
 	"github.com/prometheus/alertmanager/silence"
@@ -70,7 +71,9 @@ type SOp struct {
 type StoreCase struct {
 	N          int   `json:"n"`
 	GCInterval int64 `json:"gc_interval"`
-	Ops        []SOp `json:"ops"`
+	// NamesInMetrics turns on --enable-feature=alert-names-in-metrics (the limited counter gets an alertname label)
+	NamesInMetrics bool  `json:"names_in_metrics,omitempty"`
+	Ops            []SOp `json:"ops"`
 }
 
 type SilOp struct {
@@ -391,7 +394,9 @@ func genStore(r *vh.Rand, maxOps int) *StoreCase {
 	if bursty {
 		ninst = c.N + r.Range(2, 5)
 	}
-	far := r.Chance(1, 4) // a case in which far-future ends dominate (all items of a bucket may lie beyond 2262)
+	c.NamesInMetrics = r.Chance(1, 2)
+	unnamed := r.Chance(1, 4) // a case in which most alerts carry NO alertname label (the bucket of the empty name)
+	far := r.Chance(1, 4)     // a case in which far-future ends dominate (all items of a bucket may lie beyond 2262)
 	left := 0
 	for i := 0; i < n; i++ {
 		dt := vh.Pick(r, []int64{0, 0, 1, sec, 30 * sec, min, min, 2 * min, 5 * min, 10 * min, 20 * min})
@@ -426,6 +431,9 @@ func genStore(r *vh.Rand, maxOps int) *StoreCase {
 		}
 		if r.Chance(1, 40) {
 			op.StartAbs = vh.Pick(r, []string{"y1969", "y1900", "y1677"})
+		}
+		if unnamed && r.Chance(3, 4) || r.Chance(1, 12) {
+			op.Name = 2 // no alertname label at all
 		}
 		c.Ops = append(c.Ops, op)
 	}
@@ -470,7 +478,16 @@ func runStore(t *testing.T, c *Case) *result {
 	synctest.Test(t, func(t *testing.T) {
 		ctx, cancel := context.WithCancel(context.Background())
 		reg := prometheus.NewRegistry()
-		alerts, err := mem.NewAlerts(ctx, time.Duration(sc.GCInterval), sc.N, nil, promslog.NewNopLogger(), eventrecorder.NopRecorder(), reg, nil)
+		var flagger featurecontrol.Flagger
+		if sc.NamesInMetrics {
+			f, err := featurecontrol.NewFlags(promslog.NewNopLogger(), featurecontrol.FeatureAlertNamesInMetrics)
+			if err != nil {
+				t.Fatalf("featurecontrol.NewFlags: %v", err)
+			}
+			flagger = f
+			res.tags["flag-alert-names-in-metrics"]++
+		}
+		alerts, err := mem.NewAlerts(ctx, time.Duration(sc.GCInterval), sc.N, nil, promslog.NewNopLogger(), eventrecorder.NopRecorder(), reg, flagger)
 		if err != nil {
 			t.Fatalf("mem.NewAlerts: %v", err)
 		}
@@ -524,12 +541,17 @@ func runStore(t *testing.T, c *Case) *result {
 			now := time.Now()
 			a := &types.Alert{
 				Alert: model.Alert{
-					Labels:   model.LabelSet{"alertname": model.LabelValue(alertNames[op.Name]), "instance": model.LabelValue(fmt.Sprintf("i%d", op.Inst))},
+					Labels:   model.LabelSet{"instance": model.LabelValue(fmt.Sprintf("i%d", op.Inst))},
 					StartsAt: now.Add(time.Duration(op.StartOff)),
 					EndsAt:   now.Add(time.Duration(op.EndOff)),
 				},
 				UpdatedAt: now.Add(time.Duration(op.UpdOff)),
 				Timeout:   op.Timeout,
+			}
+			if op.Name < len(alertNames) {
+				a.Labels["alertname"] = model.LabelValue(alertNames[op.Name])
+			} else {
+				res.tags["put-without-alertname"]++
 			}
 			if op.StartAbs != "" {
 				a.StartsAt = absInstants[op.StartAbs]
@@ -579,6 +601,12 @@ func runStore(t *testing.T, c *Case) *result {
 				res.tags["put-new-accepted"]++
 			default:
 				res.tags["put-limited"]++
+				if op.Name >= len(alertNames) {
+					res.tags["put-limited-without-alertname"]++
+					if sc.NamesInMetrics {
+						res.tags["put-limited-without-alertname-flag-on"]++
+					}
+				}
 			}
 			if accepted {
 				if cur == nil {
